@@ -300,6 +300,14 @@ class Check:
                 self.proof_broken("tools/translate_code.py: enable_streaming / the Sirm accessors no longer have the shape "
                                   "the translator accepts (%s): gen/EnableStreaming.v cannot be regenerated" % e)
                 return False
+        if pid == "C02":
+            import translate_bitmask
+            try:
+                translate_bitmask.regenerate(REPO)
+            except (translate_bitmask.ShapeError, OSError) as e:
+                self.proof_broken("tools/translate_bitmask.py: `impl BitMask` of genapi/src/masked_int_reg.rs no longer has "
+                                  "the shape the translator accepts (%s): gen/BitMaskSrc.v cannot be regenerated" % e)
+                return False
         if pid == "C17":
             import translate_names
             try:
@@ -308,6 +316,14 @@ class Check:
                 self.proof_broken("tools/translate_names.py: genapi/src/parser/elem_name.rs no longer has the shape the "
                                   "translator accepts (%s): gen/ElemNames.v cannot be regenerated" % e)
                 return False
+        tr = {"C02": "tools/translate_bitmask.py (typed mini-Rust translator of `impl BitMask`, genapi/src/masked_int_reg.rs -> gen/BitMaskSrc.v) and lib/RustInt.v (debug-build semantics of the integer operations)",
+              "C08": "tools/translate_proto.py (protocol tables -> gen/ProtoTables.v)", "C09": "tools/translate_proto.py (protocol tables -> gen/ProtoTables.v)",
+              "C11": "tools/translate_proto.py (protocol tables -> gen/ProtoTables.v)",
+              "C10": "tools/translate_chunks.py (symbolic executor of ReadMemChunks::next / WriteMemChunks::next etc. -> gen/ReadChunks.v) and lib/RustInt.v",
+              "C15": "tools/translate_code.py (translator of enable_streaming + Sirm accessors -> gen/EnableStreaming.v) and lib/RustInt.v",
+              "C17": "tools/translate_names.py (element names and literal tables -> gen/ElemNames.v)"}.get(pid)
+        if tr and tr not in self.trusted:
+            self.trusted.append("re-run on /repo's sources by this run: " + tr)
         bad = grep_forbidden()
         if bad:
             self.proof_broken("forbidden constructs in the development: " + "; ".join(bad[:10]))
